@@ -423,8 +423,10 @@ fn retype(n: &Num, rng: &mut Rng) -> Num {
                 }
             } else if f == 0.0 {
                 Num::f(-f)
-            } else {
+            } else if f64::from_bits(b.wrapping_add(1)).is_finite() {
                 Num::F(b.wrapping_add(1))
+            } else {
+                Num::F(*b)
             }
         }
     }
